@@ -50,16 +50,20 @@ Involved(in) == IF in.mode = "stress" THEN in.ops ELSE {in.a, in.b}
 
 \* the model: every call returns its own result; a parked call reaches its gate (a fresh provider's first signing
 \* call passes both the read-locked look-up and the creation path)
-ModelOut(cfg, in) == [wrong |-> {}, reached |-> in.mode = "parked"]
+ModelOut(cfg, in) == [wrong |-> {}, reached |-> in.mode = "parked", config_same |-> TRUE]
 
 \* o: [ran (operations that completed at least one call), wrong (operations with at least one result that differs
 \*     from the alone result), reached (parked only: a was actually held at the gate while b ran)]
 Sound(in, o, S) == (o.wrong \cap S = {})
-C17_OK(cfg, in, o) == o.wrong = {} /\ Involved(in) \subseteq o.ran /\ (in.mode = "parked" => o.reached)
+\* config_same: the provider's configuration (every field, the clock and the stores by identity and content) is the
+\* same after the round as before it -- no call writes to it, not even temporarily with a lost restore
+C17_OK(cfg, in, o) == o.wrong = {} /\ Involved(in) \subseteq o.ran /\ (in.mode = "parked" => o.reached) /\ o.config_same
+C02_OK(cfg, in, o) == o.config_same      \* the certificate store and the clock that validity is judged by
+C05_OK(cfg, in, o) == o.config_same      \* the clock
 C12_OK(cfg, in, o) == Sound(in, o, Inflating)
 C14_OK(cfg, in, o) == Sound(in, o, Redirects)
 C16_OK(cfg, in, o) == Sound(in, o, Posts)
 C13_OK(cfg, in, o) == Sound(in, o, SignedDocs)
 C11_OK(cfg, in, o) == Sound(in, o, Decrypting)
-Conforms(m, o) == o.reached = m.reached
+Conforms(m, o) == o.reached = m.reached /\ o.config_same = m.config_same
 =============================================================================
